@@ -13,10 +13,10 @@ import monitors
 # property -> (projection code, [(profile, histories quick, histories thorough)])
 CONF = {
     "C01": (1, [("conc", 96, 1200), ("mixed", 64, 800), ("admit", 48, 600)]),
-    "C02": (2, [("graph", 112, 1400), ("fail", 64, 800), ("mixed", 32, 400)]),
+    "C02": (2, [("graph", 104, 1300), ("fail", 56, 700), ("mixed", 24, 300), ("shutdown", 24, 300)]),
     "C03": (3, [("live", 96, 1200), ("delay", 64, 800), ("reload", 48, 600)]),
     "C04": (4, [("cancel", 112, 1400), ("mixed", 64, 700), ("shutdown", 40, 400)]),
-    "C05": (5, [("admit", 128, 1600), ("mixed", 80, 800)]),
+    "C05": (5, [("admit", 112, 1400), ("mixed", 64, 700), ("retain", 32, 400)]),
     "C06": (6, [("fifo", 128, 1600), ("mixed", 80, 800)]),
     "C07": (7, [("delay", 128, 1600), ("mixed", 80, 800)]),
     "C08": (8, [("fail", 128, 1600), ("graph", 80, 800)]),
@@ -110,6 +110,14 @@ def main():
             rc, o = sh([pb["persistrun"], "-out", outp], cwd=ctx.run, timeout=120)
             recs = [json.loads(l) for l in open(outp)] if rc == 0 else []
             if [r for r in recs if r["scenario"] == rp["persist_scenario"] and not r["ok"]]:
+                violation(ctx, rp)
+            finish(ctx)
+        if "proc_case" in rp:
+            rb = build_harness(ctx, ["realrun"])
+            outp = os.path.join(ctx.run, "proc.jsonl")
+            rc, o = sh([rb["realrun"], "-mode", "proc", "-seed", str(rp["proc_case"]["seed"]), "-n", "5", "-out", outp], cwd=ctx.run, timeout=600)
+            recs = [json.loads(l) for l in open(outp)] if rc == 0 else []
+            if [r for r in recs if r.get("kind") == "proc" and not r.get("ok", True)]:
                 violation(ctx, rp)
             finish(ctx)
         if "shutdown_round" in rp:
@@ -270,6 +278,39 @@ def main():
         ctx.coverage["reload_walk_limit_probes"] = [[r["limit"], r["max_executing"]] for r in steps]
         for r in [r for r in steps if r.get("limit_what")][:2]:
             violation(ctx, {"what": "real application, definitions file rewritten (watch mode): " + r["limit_what"], "reload_walk": r["walk"][:r["step"] + 2], "step": r})
+    if prop in ("C01", "C12"):
+        # in real time: a job that runs longer than its pipeline's retention_period survives a save, stays reported and keeps its slot
+        pb = build_harness(ctx, ["persistrun"])
+        outp = os.path.join(ctx.run, "persist.jsonl")
+        prec = []
+        if pb:
+            rc, o = sh([pb["persistrun"], "-out", outp], cwd=ctx.run, timeout=120)
+            if rc == 0:
+                prec = [json.loads(l) for l in open(outp)]
+        rr = [r for r in prec if r.get("kind") == "retention_running"]
+        if not rr:
+            violation(ctx, {"what": "persistrun did not complete", "broken": "the real-time retention scenario cannot run"}, found_input=False)
+        ctx.coverage["retention_vs_running_job"] = [{k: r.get(k) for k in ("ok", "max_executing", "what")} for r in rr]
+        for r in [r for r in rr if not r["ok"]]:
+            violation(ctx, {"what": "real runner, retention_period shorter than a running job, explicit save: " + str(r.get("what")), "persist_scenario": r["scenario"]})
+    if prop == "C04":
+        # an acknowledged cancel takes effect on real processes too: generated process trees under the real application; the canceled job is
+        # reported finished within the kill timeout and nothing of it survives
+        rb = build_harness(ctx, ["realrun"])
+        outp = os.path.join(ctx.run, "proc.jsonl")
+        recs = []
+        if rb:
+            rc, o = sh([rb["realrun"], "-mode", "proc", "-seed", str(ctx.seed), "-n", "5" if ctx.tier == "quick" else "30", "-out", outp], cwd=ctx.run, timeout=1200)
+            if rc == 0:
+                recs = [json.loads(l) for l in open(outp)]
+        procs = [r for r in recs if r.get("kind") == "proc"]
+        if not procs:
+            violation(ctx, {"what": "realrun -mode proc did not complete", "broken": "the cancel rounds on real processes (C04) cannot run"}, found_input=False)
+        ctx.coverage["real_process_cancel_rounds"] = len(procs)
+        for r in [r for r in procs if not r.get("ok", True)][:2]:
+            violation(ctx, {"what": "real application, cancel of a job with real processes: not reported canceled within the kill timeout, or processes of it still alive: %s"
+                                    % {k: r.get(k) for k in ("pipeline", "report_ms", "canceled", "reported", "alive_100ms_after_report", "alive_after_timeout", "what")},
+                            "proc_case": {"seed": ctx.seed, "round": r.get("round")}, "case": {k: v for k, v in r.items() if k != "tree"}})
     if prop == "C05":
         # the admission rule follows the definition in force, through the reload path of the real application (queue_limit and concurrency
         # differ between the versions of the walk; five requests at once after each change)
